@@ -77,8 +77,33 @@ fn rac_check_doc(text: &[char]) -> Result<usize, String> {
     Ok(toks.len())
 }
 
+// progress watchdog (C01: never hangs): every input takes milliseconds; an input that is still being
+// processed after 20 s is reported as non-terminating and the test process is ended
+#[allow(dead_code)]
+fn rac_watchdog(name: &'static str) -> std::sync::Arc<std::sync::Mutex<Option<(u64, String)>>> {
+    let cur = std::sync::Arc::new(std::sync::Mutex::new(None::<(u64, String)>));
+    let c2 = cur.clone();
+    std::thread::spawn(move || {
+        let mut last: Option<(u64, String)> = None;
+        let mut since = std::time::Instant::now();
+        loop {
+            std::thread::sleep(std::time::Duration::from_secs(1));
+            let c = c2.lock().unwrap().clone();
+            if c != last {
+                last = c;
+                since = std::time::Instant::now();
+            } else if last.is_some() && since.elapsed().as_secs() >= 20 {
+                println!("RAC-CEX {} {{\"text\": {:?}, \"why\": \"did not terminate within 20 s (other inputs take milliseconds)\"}}", name, last.unwrap().1);
+                std::process::exit(1);
+            }
+        }
+    });
+    cur
+}
+
 #[test]
 fn rac_document_tiles() {
+    let wd = rac_watchdog("document_tiles");
     let alpha = ['a', 'i', 'e', '.', ' ', '\n', '\t', '1', '2', 's', 't', 'n', 'd', '"', '\''];
     let frags = ["i.e.", "e.g.", "N.S.A.", "1st", "22ND", "3rd ", " ", "\"", "etc.", "...", "isn't", "\n\n", "a", "B.", " vs. ", "1980s", "x", "0xFF", "0x10000000000000001 ", "3.5", "7", "82619480106151798 ", "\"q\" ", "(x) "];
     let mut texts: Vec<Vec<char>> = vec![vec![]];
@@ -109,6 +134,7 @@ fn rac_document_tiles() {
     let mut cases = 0u64;
     let mut nontrivial = 0u64;
     for t in &texts {
+        *wd.lock().unwrap() = Some((cases, t.iter().collect::<String>()));
         let r = std::panic::catch_unwind(|| rac_check_doc(t));
         let lexed = std::panic::catch_unwind(|| PlainEnglish.parse(t).len()).unwrap_or(0);
         cases += 1;
@@ -128,6 +154,7 @@ fn rac_document_tiles() {
             }
         }
     }
+    *wd.lock().unwrap() = None;
     println!("RAC-OK document_tiles cases={} nontrivial={} bound=len<=4-over-15-symbols+<=4-of-24-fragments", cases, nontrivial);
 }
 
